@@ -59,6 +59,7 @@ func init() {
 			{Name: "freeramp", Race: true, Shards: 4, Fn: c12FreeRamp},
 			{Name: "longramp", Shards: 6, Fn: c12LongRamp},
 			{Name: "endburst", Race: true, Shards: 4, Fn: c12EndBurst},
+			{Name: "staleclear", Shards: 4, Fn: func(c *Ctx) { cbStaleClear(c) }},
 		},
 	})
 	register(&Property{
@@ -71,6 +72,7 @@ func init() {
 			{Name: "model", Shards: 12, Fn: func(c *Ctx) { cbModelPart(c, "C18") }},
 			{Name: "freetrip", Race: true, Shards: 4, Fn: c18FreeTrip},
 			{Name: "cycleeffects", Race: true, Shards: 4, Fn: c18CycleEffects},
+			{Name: "staleclear", Shards: 4, Fn: func(c *Ctx) { cbStaleClear(c) }},
 		},
 	})
 }
@@ -954,3 +956,89 @@ func (slowWarnLogger) Debug(string, ...any)  {}
 func (slowWarnLogger) Info(string, ...any)   {}
 func (l slowWarnLogger) Warn(string, ...any) { time.Sleep(l.d) }
 func (slowWarnLogger) Error(string, ...any)  {}
+
+// cbStaleClear: a breaker that has been serving for minutes (the rolling latency histogram has gone round several times)
+// trips on latency; tripping clears the metrics, so with every re-admitted request fast the condition cannot match again:
+// no second trip, and after the recovery period the breaker is back in standby with all traffic passing.
+func cbStaleClear(c *Ctx) {
+	c.Cases("staleclear", c.N(120, 3000), func(i int, r *rand.Rand) {
+		fb := pick(r, []time.Duration{time.Second, 3 * time.Second})
+		rec := pick(r, []time.Duration{2 * time.Second, 5 * time.Second})
+		freeze(baseTime.Add(time.Duration(r.Int64N(1e9))))
+		defer unfreeze()
+		var lat atomic.Int64
+		lat.Store(int64(time.Millisecond))
+		var handled atomic.Int64
+		h := http.HandlerFunc(func(w http.ResponseWriter, req *http.Request) {
+			handled.Add(1)
+			advance(time.Duration(lat.Load())) // the request takes this long
+			w.WriteHeader(200)
+		})
+		fbh := http.HandlerFunc(func(w http.ResponseWriter, req *http.Request) { w.WriteHeader(503) })
+		q := pick(r, []float64{50, 50, 75, 90})
+		cb, err := cbreaker.New(h, sfmt("LatencyAtQuantileMS(%.1f) > 100", q), cbreaker.FallbackDuration(fb), cbreaker.RecoveryDuration(rec), cbreaker.CheckPeriod(100*time.Millisecond), cbreaker.Fallback(fbh))
+		if err != nil {
+			panic(err)
+		}
+		d := &cbDriver{cb: cb}
+		serve := func() int {
+			rr := httptest.NewRecorder()
+			cb.ServeHTTP(rr, httptest.NewRequest("GET", "http://x.test/", nil))
+			return rr.Code
+		}
+		state := func() string { s, _, _ := d.observe(); return s }
+		// phase 1: a long healthy life
+		life := time.Duration(65+r.IntN(90)) * time.Second
+		for t := time.Duration(0); t < life; {
+			gap := time.Duration(500+r.IntN(3500)) * time.Millisecond
+			advance(gap)
+			t += gap
+			serve()
+		}
+		if state() != "standby" {
+			c.Eval()
+			c.Violation("trip/spurious", sfmt("condition LatencyAtQuantileMS(%.1f) > 100 with 1ms responses only: the breaker is %s", q, state()), nil)
+			return
+		}
+		// phase 2: the backend becomes slow until the breaker trips
+		lat.Store(int64(time.Duration(300+r.IntN(600)) * time.Millisecond))
+		tripped := false
+		for k := 0; k < 400 && !tripped; k++ {
+			advance(time.Duration(500+r.IntN(2500)) * time.Millisecond)
+			serve()
+			tripped = state() == "tripped"
+		}
+		c.Eval()
+		if !tripped {
+			c.Count("staleclear_never_tripped", 1)
+			return
+		}
+		// phase 3: the backend is fast again
+		lat.Store(int64(time.Millisecond))
+		advance(fb + time.Millisecond)
+		passed, refused := 0, 0
+		for el := time.Duration(0); el <= rec+time.Second; el += 150 * time.Millisecond {
+			h0 := handled.Load()
+			serve()
+			if handled.Load() != h0 {
+				passed++
+			} else {
+				refused++
+			}
+			if s := state(); s == "tripped" {
+				c.Violation("trip|recovering=true", sfmt("quantile %.1f, fallback %v, recovery %v, %v of healthy life before the slow spell: the breaker tripped on latency, the metrics were cleared, every re-admitted request took 1ms - and the breaker tripped again %v into the recovery period (%d passed, %d refused so far): latencies recorded before the trip still count", q, fb, rec, life, el, passed, refused), nil)
+				return
+			}
+			advance(150 * time.Millisecond)
+		}
+		if s := state(); s != "standby" {
+			c.Violation("recovery-end", sfmt("after the recovery period with only fast responses the breaker is %s, not standby", s), nil)
+			return
+		}
+		if passed > 0 {
+			c.Nontrivial(sfmt("staleclear/%v/%v/%v/%d", fb, rec, life, i))
+			c.Count("staleclear_nontrivial", 1)
+		}
+	})
+	c.Require("staleclear_nontrivial", 2)
+}
